@@ -11,7 +11,7 @@ TypeDesc(k, t) ==
                                    attrs |-> [j \in DOMAIN dv[i].attrs |-> LET e == dv[i].attrs[j] IN
                                                 [name |-> e.attr, view |-> IF e.sub[1] = "-" \/ e.sub[2] = "=" THEN "" ELSE e.sub[2]]]]]]
 GraphDesc(k) ==
-  [g |-> k.g, order |-> k.order, req |-> k.req, coll |-> TopColl(k.g), views |-> SetSeq(ViewsOf(k)), fixed |-> SetSeq(FixedViews(k)),
+  [g |-> k.g, order |-> k.order, req |-> k.req, mo |-> k.mo, coll |-> TopColl(k.g), views |-> SetSeq(ViewsOf(k)), methods |-> Methods(k),
    types |-> [i \in DOMAIN TypesOf(k.g) |-> TypeDesc(k, TypesOf(k.g)[i])]]
 \* one description per variant (printed with its first case), one line per finished case
 FirstCase == cfg.fixed = "-" /\ cfg.chosen = "" /\ bad = {} /\ val = CHOOSE v \in ValueSpace(K) : TRUE
